@@ -80,8 +80,12 @@ func (p *Parser) Parse(source string) (Node, error) {
 		tokenizer.ApplyWhitespaceControl()
 	}
 
-	// Return the tokenizer to the pool
-	ReleaseTokenizer(tokenizer)
+	// p.tokens aliases the tokenizer's buffer: keep the tokenizer out of the
+	// pool until the parser has finished reading the tokens
+	defer func() {
+		p.tokens = nil
+		ReleaseTokenizer(tokenizer)
+	}()
 
 	if err != nil {
 		return nil, fmt.Errorf("tokenization error: %w", err)
@@ -93,13 +97,8 @@ func (p *Parser) Parse(source string) (Node, error) {
 	// Parse tokens into nodes
 	nodes, err := p.parseOuterTemplate()
 	if err != nil {
-		// Clean up token slice on error
-		ReleaseTokenSlice(p.tokens)
 		return nil, fmt.Errorf("parsing error: %w", err)
 	}
-
-	// Clean up token slice after successful parsing
-	ReleaseTokenSlice(p.tokens)
 
 	return NewRootNode(nodes, 1), nil
 }
